@@ -7,10 +7,8 @@ from pyvc.solve import discharge
 
 def run(pid, only=None, timeout=10000):
     src = SourceIndex()
-    reg = Registry()
-    load_specs(reg, f'/verif/specs/{pid.lower()}.py')
-    mod = importlib.import_module(f'contracts.{pid.lower()}')
-    mod.register(reg)
+    from pyvc.driver import load_registry
+    reg, mod = load_registry(pid)
     load_enums(reg, src)
     from pyvc.driver import load_facts; load_facts(reg)
     v = Verifier(src, reg, pid)
